@@ -21,6 +21,24 @@ CLAIMS: dict[str, tuple[str, str, str, str]] = {
         'conversions (value arithmetic). Axioms: durations are >= 0; x - floor(x) in [0,1). '
         'Trusted: CPython ast, re._parser.',
         'DESIGN.md section 4, C19'),
+    'C07': (
+        'static option-registry reconstruction + parser/formatter summaries compared as inverse pairs',
+        'The registry of DashOption objects is rebuilt from the source (all constructions, the error '
+        'factory, and the per-event generator evaluated over the DEFAULT_VALUES literals; floor 55 '
+        'options, so a new option is covered without touching the checker). For every option each '
+        'from_string/to_string pair is summarised (result types, none-literal test and its case '
+        'sensitivity, quoting, list separators) and must be an inverse pair for the values that '
+        'can be forwarded: no list rendered as Python repr, None written as text the parser '
+        'accepts, reserved characters escaped where free text or a `+` can occur, join/split '
+        'separators equal. Option reads reachable from the media entry points must carry a media '
+        'usage; the resolved start/depth must be stored before the URL parameters are computed; '
+        'both parameter generators must apply usage mask, exclude and default removal, and each '
+        'parameter set must reach the matching AdaptationSet type.',
+        'Not decided: identity of float formatting, values outside the enumerated type lattice, '
+        'XML escaping of the query text (C05). Parser/formatter summaries recognise the idioms in '
+        'use (constant-collection none tests, join/split, quote/unquote); an unrecognised formatter '
+        'is treated as custom and only its list/None obligations are checked.',
+        'DESIGN.md section 4, C07'),
     'C13': (
         'path-sensitive zone-domain abstract interpretation of get_http_range + call-site rules',
         'For every Range header value at once: on each exit path of get_http_range the zone '
